@@ -331,6 +331,7 @@ def legal(meta, ops, upto=None, two_monitors=False):
     m = model.Model(meta)
     preds = []
     live_slots, live_sites, owner = set(), set(), {}
+    used_defer, reserved = set(), set()
     try:
         for i, op in enumerate(ops):
             k = op[0]
@@ -359,6 +360,10 @@ def legal(meta, ops, upto=None, two_monitors=False):
                         return None
                 modes = [p.get('se%d' % j) for j in range(3)]
                 if 5 in modes and (modes.count(5) > 1 or 2 in modes or 3 in modes):
+                    return None
+                if 6 in modes and (modes.count(6) > 1 or 2 in modes or 3 in modes or 5 in modes or sh['fn'] in ('v', 'r') or p.get('dop') not in m.deferred):
+                    return None
+                if 6 in modes and any(e.p.get('dop') == p.get('dop') for e in m.exps.values() if not e.is_mon):
                     return None
                 # an object that a side effect will destroy is never the target of a nested call, and the other way round
                 doomed = {e.p['nobj'] for e in m.exps.values() if not e.is_mon and any(e.p.get('se%d' % j) == 5 for j in range(3))}
@@ -433,7 +438,50 @@ def legal(meta, ops, upto=None, two_monitors=False):
             elif k == 'setp':
                 if op[1] not in m.exps:
                     return None
+            elif k == 'defer':
+                if op[1] in m.deferred or op[1] in used_defer:
+                    return None
+                used_defer.add(op[1])
+                d = op[2:]
+                if d[0] == 'rmexp':
+                    if d[1] not in m.exps:
+                        return None
+                elif d[0] == 'exp':
+                    # the slot and the id are reserved from now on
+                    key = (d[2], d[3])
+                    if key in live_slots or d[1] in m.exps or d[1] in owner or d[4] not in m.objs:
+                        return None
+                    sh = m.shapes[d[2]]
+                    ob = m.objs[d[4]]
+                    if (sh['cls'] == 'N') != (ob.kind == 'N') or ob.kind == 'P':
+                        return None
+                    p = d[5]
+                    if any(p.get('se%d' % j) for j in range(3)):
+                        return None              # the created expectation has plain side effects
+                    if sh['rt'] and p.get('hi', 1) != -1 and p.get('lo', 1) > p.get('hi', 1) and sh['lim'] == 'rt':
+                        return None
+                    for j in range(sh['nq']):
+                        if p.get('s%d' % j) not in m.seqs:
+                            return None
+                    if sh['nq'] == 2 and p['s0'] == p['s1']:
+                        return None
+                    live_slots.add(key)
+                    owner[d[1]] = key
+                    reserved.add(d[1])
+                else:
+                    return None
             preds.append(m.apply(op))
+            if m.illegal:
+                return None
+            # expectations that came or went inside a call (deferred operations of side effects)
+            reserved &= {d[1] for d in m.deferred.values() if d[0] == 'exp'}
+            for eid in list(owner):
+                if eid not in m.exps and eid not in reserved and preds[-1].op[0] in ('call', 'callx'):
+                    key = owner.pop(eid)
+                    if key and key[0] == 'site':
+                        live_sites.discard(key[1])
+                    elif key:
+                        live_slots.discard(key)
     except (KeyError, AssertionError, ValueError, IndexError):
         return None
     return preds
@@ -482,6 +530,10 @@ def parse_ops(meta, lines):
     for ln in lines:
         t = ln.split()
         if not t:
+            continue
+        if t[0] == 'defer':
+            inner = parse_ops(meta, [' '.join(t[2:])])[0]
+            ops.append(('defer', int(t[1])) + tuple(inner))
             continue
         if t[0] == 'exp':
             sh = int(t[2]) if t[2].lstrip('-').isdigit() else core[t[2]]
